@@ -25,3 +25,31 @@ Theorem C13_member_oracle : forall (Vr : Type) (E : EqDec Vr) (G : cfg Vr) (w : 
   cfg_member G w = true <-> LangG G w.
 Proof. exact (@cfg_member_spec). Qed.
 Print Assumptions C13_member_oracle.
+
+(* ---- the four conversions, for every grammar / automaton and every word ---- *)
+From PFL Require Import Model.Cfg Model.Pda Proofs.PdaCfg Proofs.PdaWrap.
+
+(* CFG.to_pda; the hypothesis is what CFG.__init__ establishes (body terminals are registered) *)
+Theorem C13_cfg_to_pda : forall (Vr : Type) (Gm : cfg Vr),
+  (forall A body a, In (A, body) (g_prods Gm) -> In (T a) body -> In a (g_terms Gm)) ->
+  forall w, acc_empty (cfg_to_pda Gm) w <-> LangG Gm w.
+Proof. exact (@cfg_to_pda_lang). Qed.
+Print Assumptions C13_cfg_to_pda.
+
+(* PDA.to_cfg (triples pruned by CFGVariableConverter's validity test); hypothesis: add_transition registers the target state *)
+Theorem C13_pda_to_cfg : forall (Q G : Type) (EQ : EqDec Q) (EG : EqDec G) (P : pda Q G),
+  (forall q l A r push, In (q, l, A, r, push) (p_delta P) -> In r (p_states P)) ->
+  forall w, LangG (pda_to_cfg P) w <-> acc_empty P w.
+Proof. exact (@pda_to_cfg_lang). Qed.
+Print Assumptions C13_pda_to_cfg.
+
+(* pda_wf: targets and the start state are registered states, the start stack symbol and pushed symbols registered stack symbols *)
+Theorem C13_to_final_state : forall (Q G : Type) (P : pda Q G), pda_wf P ->
+  forall w, acc_final (to_final_state P) w <-> acc_empty P w.
+Proof. exact (@to_final_state_wf). Qed.
+Print Assumptions C13_to_final_state.
+
+Theorem C13_to_empty_stack : forall (Q G : Type) (P : pda Q G), pda_wf P ->
+  forall w, acc_empty (to_empty_stack P) w <-> acc_final P w.
+Proof. exact (@to_empty_stack_wf). Qed.
+Print Assumptions C13_to_empty_stack.
